@@ -311,7 +311,7 @@ def eligible (pre : List Passkey) (rp : Bytes) (allow : Option (List Bytes)) : L
     | some l => l.isEmpty || l.any (· == p.credId)
     | none => true))
 
-def c03_authenticate (uv : UvCfg) (origin : RpId.Origin) (originStr : String) (req : AuthReq) (mode : ClientDataMode)
+def c03_authenticate (kind : StoreKind) (uv : UvCfg) (origin : RpId.Origin) (originStr : String) (req : AuthReq) (mode : ClientDataMode)
     (pre : List Passkey) (o : CObs AuthOk) : Option String :=
   match o.res with
   | .panic => some "panic"
@@ -342,7 +342,8 @@ def c03_authenticate (uv : UvCfg) (origin : RpId.Origin) (originStr : String) (r
     match pre.find? (fun p => p.credId == r.rawId) with
     | none => some "credential-id-names-no-registered-credential"
     | some p =>
-    if p.rpId != rp then some "credential-registered-for-another-rp" else
+    if p.rpId != rp then
+      some ("credential-registered-for-another-rp:" ++ (match kind with | .memoryMap => "in-memory-map-store" | .singleSlot => "single-slot-store" | .reference _ => "contract-store")) else
     if !(eligible pre rp req.allow).any (fun c => c.credId == r.rawId) then some "signature-produced-with-a-credential-the-allow-list-does-not-name" else
     if r.userHandle != p.userHandle then some "user-handle-is-not-the-stored-one" else
     let hash := match mode with | .customHash h => h | _ => Sha256.sha256 r.clientDataJson
@@ -517,7 +518,7 @@ def verdictAuth (prop : String) (cfg : Cfg) (_kind : StoreKind) (uv : UvCfg) (or
   | none => "fail:unparsable-or-crashed"
   | some o =>
     if prop = "C11" then (match c11_assert pre o with | none => "ok" | some f => "fail:" ++ f)
-    else if prop = "C03" then (match c03_authenticate uv origin originStr req mode preItems o with | none => "ok" | some f => "fail:" ++ f)
+    else if prop = "C03" then (match c03_authenticate _kind uv origin originStr req mode preItems o with | none => "ok" | some f => "fail:" ++ f)
     else if prop = "C09" then (match c09_authenticate cfg req preItems o with | none => "ok" | some f => "fail:" ++ f)
     else if prop = "C13" then (match c13_authenticate o with | none => "ok" | some f => "fail:" ++ f)
     else if prop = "C04" then
